@@ -11,7 +11,7 @@ spec("REP", "t:SymbolTables", "bool",
      macro=True)
 
 contract(M + "SymbolTables.clear",
-    str_axioms=["case_idempotent"],
+    str_axioms=["case_idempotent"], alloc_facts=True,
     types=dict(self="SymbolTables"),
     modifies=["self._symbol_tables", "self._current_scope", "scope_stack"],
     ghost_update={"scope_stack": "[]"},
@@ -25,7 +25,7 @@ contract(M + "SymbolTables.clear",
 )
 
 contract(M + "SymbolTable.__init__",
-    str_axioms=["case_idempotent"],
+    str_axioms=["case_idempotent"], alloc_facts=True,
     types=dict(self="SymbolTable", name="str", parent="ref:SymbolTable?", checking_enabled="bool", node="any"),
     modifies=["self._name", "self._data_symbols", "self._modules", "self._parent", "self._node", "self._checking_enabled", "self._children"],
     ensures={
@@ -39,7 +39,7 @@ contract(M + "SymbolTable.__init__",
 )
 
 contract(M + "SymbolTable.add_child",
-    str_axioms=["case_idempotent"],
+    str_axioms=["case_idempotent"], alloc_facts=True,
     types=dict(self="SymbolTable", child="ref:SymbolTable"),
     modifies=["self._children"],
     ensures={"appended": "self._children == old(self._children) + [child]"},
@@ -48,7 +48,7 @@ contract(M + "SymbolTable.add_child",
 )
 
 contract(M + "SymbolTables.add",
-    str_axioms=["case_idempotent"],
+    str_axioms=["case_idempotent"], alloc_facts=True,
     types=dict(self="SymbolTables", name="str", node="any"),
     returns="ref:SymbolTable",
     modifies=["self._symbol_tables", "*._name", "*._data_symbols", "*._modules", "*._parent", "*._node", "*._checking_enabled", "*._children"],
@@ -61,12 +61,12 @@ contract(M + "SymbolTables.add",
         "was_absent": "name.lower() not in old(self._symbol_tables)",
     },
     raises={"SymbolTableError": {"was_present": "name.lower() in self._symbol_tables", "unchanged": "self._symbol_tables == old(self._symbol_tables)"},
-            "TypeError": {}},
+            "TypeError": {"unchanged": "self._symbol_tables == old(self._symbol_tables)"}},
     serves=["C09", "C16"],
 )
 
 contract(M + "SymbolTables.lookup",
-    str_axioms=["case_idempotent"],
+    str_axioms=["case_idempotent"], alloc_facts=True,
     types=dict(self="SymbolTables", name="str"),
     returns="ref:SymbolTable",
     ensures={"found": "name.lower() in self._symbol_tables and result == self._symbol_tables[name.lower()]"},
@@ -75,7 +75,7 @@ contract(M + "SymbolTables.lookup",
 )
 
 contract(M + "SymbolTables.enter_scope",
-    str_axioms=["case_idempotent"],
+    str_axioms=["case_idempotent"], alloc_facts=True,
     types=dict(self="SymbolTables", name="str", node="any"),
     requires={"rep": "REP(self)"},
     modifies=["self._symbol_tables", "self._current_scope", "scope_stack",
@@ -99,14 +99,15 @@ contract(M + "SymbolTables.enter_scope",
         "top_level_reuse_changes_no_link": "implies(old(self._current_scope) is None and name.lower() in old(self._symbol_tables), "
                  "self._current_scope._parent is None)",
     },
-    raises={"TypeError": {"nothing_entered": "scope_stack == old(scope_stack) and self._current_scope == old(self._current_scope)"}},
+    raises={"TypeError": {"nothing_entered": "scope_stack == old(scope_stack) and self._current_scope == old(self._current_scope)",
+                          "tables_kept": "self._symbol_tables == old(self._symbol_tables)"}},
     # a table found by lookup() was created by add(), hence is a root [A: class invariant of top-level tables]
     assume={"top_level_tables_are_roots": "implies(name.lower() in self._symbol_tables, self._symbol_tables[name.lower()]._parent is None)"},
     serves=["C09", "C16"],
 )
 
 contract(M + "SymbolTables.exit_scope",
-    str_axioms=["case_idempotent"],
+    str_axioms=["case_idempotent"], alloc_facts=True,
     types=dict(self="SymbolTables"),
     requires={"rep": "REP(self)"},
     modifies=["self._current_scope", "scope_stack"],
@@ -126,7 +127,7 @@ spec("first_named", "xs:list[ref], n:str, i:int", "int",
      rec=True, heap=["_name"])
 
 contract(M + "SymbolTable.del_child",
-    str_axioms=["case_idempotent"],
+    str_axioms=["case_idempotent"], alloc_facts=True,
     types=dict(self="SymbolTable", name="str"),
     modifies=["self._children"],
     locals=dict(),
@@ -143,7 +144,7 @@ contract(M + "SymbolTable.del_child",
 )
 
 contract(M + "SymbolTable.root", prop=True,
-    str_axioms=["case_idempotent"],
+    str_axioms=["case_idempotent"], alloc_facts=True,
     types=dict(self="SymbolTable"), returns="ref:SymbolTable",
     ensures={"is_a_root": "result._parent is None"},
     raises=[],
@@ -152,7 +153,7 @@ contract(M + "SymbolTable.root", prop=True,
 )
 
 contract(M + "SymbolTables.remove",
-    str_axioms=["case_idempotent"],
+    str_axioms=["case_idempotent"], alloc_facts=True,
     types=dict(self="SymbolTables", name="str"),
     requires={"rep": "REP(self)"},
     modifies=["self._symbol_tables", "*._children"],
@@ -166,8 +167,10 @@ contract(M + "SymbolTables.remove",
               "name.lower() in old(self._symbol_tables) and name.lower() not in self._symbol_tables "
               "and dict_same_except(self._symbol_tables, old(self._symbol_tables), name.lower()))",
         "frame": "unchanged_except('_children', self._current_scope)",
+        "tables_only_shrink": "dict_subset(self._symbol_tables, old(self._symbol_tables))",
     },
     raises={"SymbolTableError": {"unchanged": "self._symbol_tables == old(self._symbol_tables) and self._current_scope == old(self._current_scope) and scope_stack == old(scope_stack)",
-                                 "children_kept": "unchanged_except('_children', None)"}},
+                                 "children_kept": "unchanged_except('_children', None)",
+                                 "only_when": "name.lower() not in self._symbol_tables or self._current_scope is not None"}},
     serves=["C09", "C16"],
 )
